@@ -772,6 +772,11 @@ class SInt:
     def to_bytes(self, *a, **k):
         raise Unmodelled("SInt.to_bytes")
 
+    def __getattr__(self, name):
+        if hasattr(int, name):
+            raise Unmodelled(f"SInt.{name}")
+        raise AttributeError(name)
+
     def __format__(self, spec):
         raise Unmodelled("format(SInt) via C")
 
